@@ -26,6 +26,9 @@ props = sys.argv[2:] or sorted(os.path.basename(d) for d in glob.glob(os.path.jo
 base = "/tmp/benignrun_%d" % os.getpid()
 wt = base + "/repo"
 subprocess.run("rm -rf %s; mkdir -p %s; git -C /repo worktree add --detach %s HEAD >/dev/null 2>&1" % (base, base, wt), shell=True)
+# the checks run from a snapshot of /verif taken now, so that the machinery can be edited while a long round is running
+SNAP = base + "/verif"
+subprocess.run("rsync -a --exclude build --exclude work --exclude out --exclude replays --exclude .git --exclude benign --exclude seeded %s/ %s/" % (ROOT, SNAP), shell=True)
 env = dict(os.environ, VERIF_REPO=wt, VERIF_BUILD=base + "/build", VERIF_OUT=base + "/out", VERIF_WORKERS=os.environ.get("VERIF_WORKERS", "8"))
 rnd = os.path.basename(root.rstrip("/"))
 try:
@@ -45,7 +48,7 @@ try:
             meta = {"id": ident, "made_for_property": p, "applies": r.returncode == 0, "checks": {}}
             if r.returncode == 0:
                 for c in RELATED.get(p, [p]):
-                    q = subprocess.run([os.path.join(ROOT, "verif.py"), "check", c, "--tier", "quick"], env=env, cwd=ROOT, stdout=subprocess.PIPE, stderr=subprocess.STDOUT, text=True)
+                    q = subprocess.run([os.path.join(SNAP, "verif.py"), "check", c, "--tier", "quick"], env=env, cwd=SNAP, stdout=subprocess.PIPE, stderr=subprocess.STDOUT, text=True)
                     tail = [l[:400] for l in q.stdout.splitlines() if not l.startswith("batch ") and not l.startswith("build ok")][-6:]
                     meta["checks"][c] = {"exit": q.returncode, "tail": tail if q.returncode != 0 else tail[-1:]}
                     print(ident, c, "exit", q.returncode, flush=True)
